@@ -137,3 +137,17 @@ pub fn history_transcript_with(frames: &[Vec<u8>], rx: (f64, f64), range: f64, b
     }
     s
 }
+
+/// feed the frames, dump once at the end (long histories: the per-step dump would be quadratic)
+pub fn history_final(frames: &[Vec<u8>], rx: (f64, f64), range: f64) -> String {
+    let mut planes = Airplanes::new();
+    let mut added = 0u32;
+    for b in frames {
+        if let Ok(f) = Frame::from_bytes(b) {
+            if planes.action(f, rx, range) == Added::Yes {
+                added += 1;
+            }
+        }
+    }
+    format!("added={added}\n{}", tracker_dump(&planes))
+}
